@@ -56,6 +56,15 @@ Theorem C17_mutex_free_after_exit : forall p s i k s' m, reach p s -> step s i k
 Proof. exact mutex_free_after_exit. Qed.
 Print Assumptions C17_mutex_free_after_exit.
 
+(* both kinds of exit occur: an error unwinding through the body, and the end of the body *)
+Theorem C17_exit_examples :
+  (exists s s', run_sched (init ex_exit) [(0,0); (0,0); (0,0)]%nat = Some s /\ step s 0 0 = Some s' /\
+                inside s 0%nat 0%nat /\ ~ inside s' 0%nat 0%nat /\ unw (nth 0 (rs s) (init_routine [])) = true) /\
+  (exists s s', run_sched (init ex_exit) [(0,0); (0,0); (0,0); (0,0); (0,0); (0,0)]%nat = Some s /\ step s 0 0 = Some s' /\
+                inside s 0%nat 0%nat /\ ~ inside s' 0%nat 0%nat /\ unw (nth 0 (rs s) (init_routine [])) = false).
+Proof. exact exit_by_error_and_by_end. Qed.
+Print Assumptions C17_exit_examples.
+
 Theorem C17_all_free_at_end : forall p s m o, reach p s -> all_finished s = true -> nth_error (mus s) m = Some o -> o = None.
 Proof. exact all_free_at_end. Qed.
 Print Assumptions C17_all_free_at_end.
@@ -75,6 +84,12 @@ Theorem C17_counter_final : forall p x m s, guarded p x m = true -> nofail p = t
   nth x (mem s) 0%Z = (nth x (p_mem p) 0 + total_incs p x)%Z.
 Proof. exact counter_final. Qed.
 Print Assumptions C17_counter_final.
+
+(* so the result is the same on every schedule, in particular the one of running the routines one after the other *)
+Theorem C17_guarded_result_schedule_independent : forall p x m s1 s2, guarded p x m = true -> nofail p = true ->
+  reach p s1 -> all_finished s1 = true -> reach p s2 -> all_finished s2 = true -> nth x (mem s1) 0%Z = nth x (mem s2) 0%Z.
+Proof. exact guarded_result_schedule_independent. Qed.
+Print Assumptions C17_guarded_result_schedule_independent.
 
 (* (5') FULL statement of the property: updates to a synchronized instance are not lost.  FALSE of the
    faithful model: set-synchronized / a global's lock cover each single read and each single write, not the
